@@ -143,9 +143,10 @@ def inline_helpers(pkg, fn, keep=(), max_rounds=4):
 
     class ExprInliner(ast.NodeTransformer):
         """Replace calls of expression helpers inside expressions."""
-        def __init__(self):
+        def __init__(self, allow_value=False):
             self.changed = False
             self.pre = []
+            self.allow_value = allow_value
 
         def visit_Call(self, node):
             self.generic_visit(node)
@@ -153,7 +154,7 @@ def inline_helpers(pkg, fn, keep=(), max_rounds=4):
             if callee is None:
                 return node
             kind, _ = classify(callee)
-            if kind != "expr":
+            if kind not in ("expr", "value") or (kind == "value" and not self.allow_value):
                 return node
             r = subst_body(callee, node, is_method)
             if r is None:
@@ -162,6 +163,10 @@ def inline_helpers(pkg, fn, keep=(), max_rounds=4):
             self.pre.extend(pre)
             self.changed = True
             inlined.add(callee)
+            if kind == "value":
+                # hoist the helper's statements in front of the enclosing simple statement, keep its result expression
+                self.pre.extend(body[:-1])
+                return ast.copy_location(body[-1].value, node)
             return ast.copy_location(body[0].value, node)
 
     def do_block(stmts):
@@ -207,7 +212,7 @@ def inline_helpers(pkg, fn, keep=(), max_rounds=4):
                             changed = True
                             continue
             # expression helpers anywhere in the header / simple statement
-            ei = ExprInliner()
+            ei = ExprInliner(allow_value=isinstance(st, (ast.Expr, ast.Assign, ast.AugAssign, ast.AnnAssign, ast.Return, ast.If)))
             if isinstance(st, (ast.If, ast.While)):
                 st.test = ei.visit(st.test)
             elif isinstance(st, ast.For):
